@@ -269,6 +269,9 @@ class Mod:
                     kd = "instance"
                 kind = rng.choice(["instance", "class", "static"])
                 cls_path = [rng.choice(["K0", "K1"]), "In"] if self.opts.get("nested_classes", True) else ["K0"]
+                if self.opts.get("nested_classes", True) and idx % 3 == 0:
+                    # three levels deep; NS / NS.Mid never get methods of their own (namespace-only enclosing classes)
+                    cls_path = [["K0", "In", "Deep"], ["NS", "Mid", "Deep"], ["K1", "In", "Deep"]][(idx // 3) % 3]
             else:
                 kind = kd
             if kind != "module" and not cls_path:
@@ -310,18 +313,25 @@ class Mod:
         out = [HEADER]
         for f in self.classes.get((), []):
             out += f.render() + ["", ""]
-        for top in ("K0", "K1"):
-            members = self.classes.get((top,), [])
-            nested = self.classes.get((top, "In"), [])
-            if not members and not nested:
-                continue
-            out.append(f"class {top}:")
+        paths = sorted(p for p in self.classes if p)
+        tops = sorted({p[0] for p in paths})
+
+        def emit(path, indent):
+            out.append(f"{indent}class {path[-1]}:")
+            members = self.classes.get(path, [])
+            kids = sorted({p[:len(path) + 1] for p in paths if len(p) > len(path) and p[:len(path)] == path})
+            if not members and not kids:
+                out.append(f"{indent}    pass")
             for f in members:
-                out += f.render("    ") + [""]
-            if nested:
-                out.append("    class In:")
-                for f in nested:
-                    out += f.render("        ") + [""]
+                out.extend(f.render(indent + "    ") + [""])
+            if not members and kids:
+                out.append(f"{indent}    LABEL = {path[-1]!r}  # a class that is only a namespace for nested classes")
+                out.append("")
+            for kpath in kids:
+                emit(kpath, indent + "    ")
+
+        for top in tops:
+            emit((top,), "")
             out += ["", ""]
         self.source = "\n".join(out) + "\n"
 
